@@ -66,12 +66,14 @@ where
             sxy = sxy + *v * count;
             syy = syy + count.powi(2);
         }
-        let window_len = T::from(self.window_len).expect("Can convert");
+        // Number of values the sums run over (smaller than `window_len` while the window fills).
+        let window_len = T::from(self.q_vals.len()).expect("Can convert");
         if window_len * sxx - sx.powi(2) > T::zero() && window_len * syy - sy.powi(2) > T::zero() {
             let out = (window_len * sxy - sx * sy)
                 / ((window_len * sxx - sx.powi(2)) * (window_len * syy - sy.powi(2))).sqrt();
             debug_assert!(out.is_finite(), "value must be finite");
-            return Some(out);
+            // A correlation cannot leave [-1, 1]; rounding may overshoot by an ulp.
+            return Some(out.max(-T::one()).min(T::one()));
         }
         Some(T::zero())
     }
